@@ -79,6 +79,27 @@ theorem C07_witness_staleHandle : ¬ C07_Statement := by
   revert this
   decide
 
+/-- F-C07-7: rmdir of a directory that holds a renamed-in file succeeds, sync_dir of the parent makes
+    the removal durable -/
+def hist7 : List Op := [.mkdir d, .writeFile a [65], .rename a (d ++ a), .rmdir d, .syncDir []]
+
+theorem C07_witness_rmdirRenamedIn : ¬ C07_Statement := by
+  intro h
+  have := h {} (q hist7) {} d (by decide)
+  revert this
+  decide
+
+/-- F-C07-11: /d/a durable, rename /d/a /b, sync_dir /d (source) then sync_dir / (destination):
+    both parents were synced after the rename, yet /b is not durable and the file is lost -/
+def hist11 : List Op :=
+  [.mkdir d, .open 0 (d ++ a) WC, .close 0, .syncDir [], .syncDir d, .rename (d ++ a) b, .syncDir d, .syncDir []]
+
+theorem C07_witness_crossDirRename : ¬ C07_Statement := by
+  intro h
+  have := h {} (q hist11) {} b (by decide)
+  revert this
+  decide
+
 /-! ### what is proved -/
 
 /-- crash ∘ crash = crash (any block sizes, any torn-write oracles) -/
